@@ -49,6 +49,35 @@ def NotSilent (C : Codec) (p : Prog) : Outcome → Prop
   | .returned s => ∀ t ∈ p.threads, t.free = true → Complete C t s ∧ CopyExists s t.tid
   | .killed _ => False
 
+/-! ### any interleaving of the threads' calls (C09) -/
+
+/-- `L` interleaves the lists `ls`, each keeping its own order: the next call
+    is the head of the `i`-th list. -/
+inductive Shuffle : List (List FOp) → List FOp → Prop
+  | done {ls : List (List FOp)} : (∀ l ∈ ls, l = []) → Shuffle ls []
+  | take {ls : List (List FOp)} {op : FOp} {L : List FOp} (i : Nat) (rest : List FOp) :
+      ls[i]? = some (op :: rest) → Shuffle (ls.set i rest) L → Shuffle ls (op :: L)
+
+/-- A schedule of the process: `ovni_proc_init`, then the calls of the threads
+    interleaved in any way, then `ovni_proc_fini`. -/
+def Schedule (ser : Meta → List Nat) (p : Prog) (L : List FOp) : Prop :=
+  ∃ body, Shuffle (p.threads.map fun t => ops (threadCalls ser p t)) body ∧
+    L = ops (procInitCalls p) ++ body ++ ops (procFiniCalls p)
+
+/-- The file system when the process running schedule `L` is killed after `k` calls. -/
+def crashStateS (p : Prog) (L : List FOp) (k : Nat) : Fs := run p.init (L.take k)
+
+def CrashConsistentS (E : EmuCfg) (C : Codec) (p : Prog) (L : List FOp) : Prop :=
+  ∀ (k : Nat) (cut : Path → Nat) (r : Root),
+    accepts E C (crashStateS p L k) cut r = true →
+    ∀ tid ∈ visibleStreams (crashStateS p L k) r,
+      (crashStateS p L k).visible cut (.file r tid .obs) = some ((crashStateS p L k).flushed tid)
+
+def FinishedAfterDataS (C : Codec) (p : Prog) (L : List FOp) : Prop :=
+  ∀ (k : Nat) (cut : Path → Nat), ∀ t ∈ p.threads, ∀ j,
+    (crashStateS p L k).visible cut (.file .fin t.tid .json) = some j → jsonFinished C j = true →
+    (crashStateS p L k).visible cut (.file .fin t.tid .obs) = some t.obsBytes
+
 def Outcome.isReturned : Outcome → Bool
   | .returned _ => true
   | _ => false
